@@ -337,9 +337,10 @@ pub fn write_spec(mix: WriteMix, nkeys: usize, nblobs: usize) -> impl Strategy<V
         (chunks(), declare(mix.bad_decls), if mix.bad_decls { integ_decl().boxed() } else if mix.rich_matching { integ_decl_matching().boxed() } else { prop_oneof![Just(IntegDecl::None), Just(IntegDecl::Correct)].boxed() }),
         (proptest::option::weighted(0.3, time_text()), proptest::option::weighted(0.3, json_value()), proptest::option::weighted(0.25, raw_meta()), any::<bool>()),
         (prop_oneof![3 => Just(0u8), 1 => 3u8..6], prop_oneof![12 => Just(Interfere::None), 1 => Just(Interfere::Clear), 1 => Just(Interfere::RemoveTmp), 1 => Just(Interfere::RemoveContentArea)],
-         prop_oneof![8 => Just(0u16), 2 => 1u16..4, 1 => Just(1025u16), 1 => Just(1500u16)]),
+         prop_oneof![8 => Just(0u16), 2 => 1u16..4, 1 => Just(1025u16), 1 => Just(1500u16)],
+         proptest::option::weighted(0.15, 0u8..8)),
     )
-        .prop_map(move |((ks, bs, hash, algo, entry), (chunks, declare, integ), (time, metadata, raw, flush), (pause, interfere, vectored))| {
+        .prop_map(move |((ks, bs, hash, algo, entry), (chunks, declare, integ), (time, metadata, raw, flush), (pause, interfere, vectored, cancel_chunk))| {
             let by_hash = mix.by_hash && hash && (ks & 3) == 0;
             let mut s = WriteSpec {
                 key: if by_hash { None } else { Some(pick(ks, nkeys)) },
@@ -356,6 +357,7 @@ pub fn write_spec(mix: WriteMix, nkeys: usize, nblobs: usize) -> impl Strategy<V
                 pause_ms: if mix.rich_matching { pause } else { 0 },
                 interfere: if mix.interfere { interfere } else { Interfere::None },
                 vectored,
+                cancel_chunk,
             };
             normalise_write(&mut s);
             s
@@ -384,6 +386,7 @@ pub fn normalise_write(s: &mut WriteSpec) {
         s.pause_ms = 0;
         s.interfere = Interfere::None;
         s.vectored = 0;
+        s.cancel_chunk = None;
     }
 }
 
